@@ -1,6 +1,8 @@
 import Ptn.C01.Model
 import Ptn.C01.Lemmas
 import Ptn.C01.Enum
+import Ptn.C01.Compress
+import Ptn.C01.Cut
 /-! Property theorems for C01 (Hamiltonian → state diagram → operator is exact).  Only property theorems
 and non-vacuity examples live here; helper lemmas are in `Lemmas.lean`.
 
@@ -83,6 +85,169 @@ theorem base_defined (t : RTree) (tm : Term) (rest : List Term) :
   refine ⟨_, rfl, ?_⟩
   exact (fold_sum_denote t tm rest (singleTerm t tm) (singleAt_WF _ _ _ true t) (sameShape_refl _)).1
 
+/-! ### The semantic core of the compressing constructions
+
+`combine_subtrees` (+ `erase_subtree`) and `cut_and_optimise` (+ `_reconnect_hyperedges`) are not
+modelled line by line; the theorems below are the identities that make them sound, and the exact
+place where soundness is lost for repeated terms (F-C01b, F-C01d). -/
+
+/-- Re-attaching the parent-side hyperedges of vertex `v2` to vertex `v1` (edge to child number `j`
+    of the node reached by `path`, anywhere in any tree) preserves the denotation as soon as the child
+    denotes the same formal sum below both vertices.  No other hypothesis. -/
+theorem reattach_preserves (d x : SD) (path : List Nat) (j v1 v2 : Nat)
+    (hx : subAt path d = some x)
+    (hbelow : ∀ k, x.kids[j]? = some k → denoteAt k (some v2) = denoteAt k (some v1)) :
+    sdDenote (modifyAt path (redirect j v2 v1) d) = sdDenote d :=
+  denoteAt_modifyAt _ path d x hx (denoteAt_redirect j v2 v1 x hbelow) none
+
+/-- **`combine_subtrees` is sound without any distinctness condition**: merging two child-side
+    vertices `v1 ≠ v2` (re-attach the parents of `v2` to `v1`, erase the hyperedges sitting on `v2`)
+    preserves `sdDenote` whenever what hangs below `v2` denotes the same as what hangs below `v1` -
+    in particular when the two sub-diagrams are equal as data (equal subtree hashes), *also when they
+    come from the same term twice*.  The side condition the design anticipated ("not the same term
+    twice") is not needed here; multiplicity is lost later, see `gamma_read_exact` and
+    `merge_identical_terms_loses_multiplicity`. -/
+theorem merge_equal_subtrees_preserves (d x : SD) (path : List Nat) (j v1 v2 : Nat)
+    (hx : subAt path d = some x) (hne : v1 ≠ v2)
+    (hbelow : ∀ k, x.kids[j]? = some k → denoteAt k (some v2) = denoteAt k (some v1)) :
+    sdDenote (modifyAt path (mergeAt j v2 v1) d) = sdDenote d :=
+  denoteAt_modifyAt _ path d x hx (denoteAt_mergeAt j v2 v1 hne x hbelow) none
+
+/-- In the uncompressed diagram the sub-diagram below vertex `k` of a root edge denotes the padded
+    labels of term `k` on that subtree (coefficient 1): equal label subtrees - what the SHA-256 subtree
+    hash compares - are equal denotations. -/
+theorem base_below_vertex (t : RTree) (tm0 : Term) (rest : List Term) (d : SD)
+    (h : baseDiagram t (tm0 :: rest) = some d) (j : Nat) (dk : SD) (tk : RTree)
+    (hdk : d.kids[j]? = some dk) (htk : t.kids[j]? = some tk) (k : Nat) (tm : Term)
+    (hk : (tm0 :: rest)[k]? = some tm) :
+    denoteAt dk (some k) = [⟨1, [], asgOf tm.ops tk⟩] :=
+  (base_below t tm0 rest d h j dk tk hdk htk).2 k tm hk
+
+/-- First level of `combine_subtrees` on the uncompressed diagram: two terms `k1 ≠ k2` (possibly the
+    *same* term twice) whose padded labels agree on the whole subtree of root child `j` can be merged
+    there; the diagram still denotes Σ_k c_k ⊗ A_k with every multiplicity. -/
+theorem combine_base_preserves (t : RTree) (tm0 : Term) (rest : List Term) (d : SD)
+    (h : baseDiagram t (tm0 :: rest) = some d) (j k1 k2 : Nat) (tk : RTree) (t1 t2 : Term)
+    (htk : t.kids[j]? = some tk) (h1 : (tm0 :: rest)[k1]? = some t1)
+    (h2 : (tm0 :: rest)[k2]? = some t2) (hne : k1 ≠ k2)
+    (hlab : asgOf t2.ops tk = asgOf t1.ops tk) :
+    sdDenote (mergeAt j k2 k1 d) = hamDenote t (tm0 :: rest) := by
+  rw [← base_exact t (tm0 :: rest) d h]
+  have := merge_equal_subtrees_preserves d d [] j k1 k2 rfl hne (fun dk hdk => by
+    rw [base_below_vertex t tm0 rest d h j dk tk hdk htk k2 t2 h2,
+      base_below_vertex t tm0 rest d h j dk tk hdk htk k1 t1 h1, hlab])
+  simpa [modifyAt] using this
+
+/-- Where multiplicity is lost.  Two identical terms `A ⊗ B + A ⊗ B` on a two-node tree: merging the
+    equal child subtrees is sound (first clause), but afterwards the two root hyperedges are equal as
+    data (same label, same vertex, same coefficient) and `_generate_non_redundant_V_dict` /
+    `_remove_reduntant_v_hyperedges` keep only one of them: the diagram then denotes `A ⊗ B` once. -/
+theorem merge_identical_terms_loses_multiplicity :
+    let t : RTree := .node 0 2 [.node 1 2 []]
+    let tm : Term := ⟨1, "1", [(0, "A"), (1, "B")]⟩
+    ∀ d, baseDiagram t [tm, tm] = some d →
+      sdDenote (mergeAt 0 1 0 d) = sdDenote d ∧
+      (mergeAt 0 1 0 d).hes[0]? = (mergeAt 0 1 0 d).hes[1]? ∧
+      sdDenote (removeHE 1 (mergeAt 0 1 0 d)) = [termMono t tm] ∧
+      sdDenote (removeHE 1 (mergeAt 0 1 0 d)) ≠ hamDenote t [tm, tm] := by
+  intro t tm d h
+  simp only [baseDiagram, Option.some.injEq] at h
+  subst h
+  decide +kernel
+
+/-- `cut_and_optimise`, step 1 (`gaussian_elimination`): with `Γ = L · Γ' · R` the bilinear sum over
+    U and V nodes equals the bilinear sum over the virtual nodes with coefficient matrix `Γ'`.
+    `K`: any commutative semiring of coefficients (linear forms in the symbols), `f`: any bilinear
+    operation `A → B → C` (the tensor product of the two sides of the edge). -/
+theorem cut_factor {K : Type*} [CommSemiring K] {A B C : Type*} [AddCommMonoid A] [AddCommMonoid B]
+    [AddCommMonoid C] [Module K A] [Module K B] [Module K C]
+    {ι κ ι' κ' : Type*} [Fintype ι] [Fintype κ] [Fintype ι'] [Fintype κ']
+    (f : A →ₗ[K] B →ₗ[K] C) (U : ι → A) (V : κ → B)
+    (Γ : Matrix ι κ K) (L : Matrix ι ι' K) (Γ' : Matrix ι' κ' K) (R : Matrix κ' κ K)
+    (h : Γ = L * Γ' * R) :
+    ∑ u, ∑ v, Γ u v • f (U u) (V v) =
+      ∑ u', ∑ v', Γ' u' v' • f (∑ u, L u u' • U u) (∑ v, R v' v • V v) :=
+  cut_factor_lem f U V Γ L Γ' R h
+
+/-- `cut_and_optimise`, step 2 (`minimum_vertex_cover` + `_reconnect_hyperedges`): if `(Cu, Cv)`
+    covers the support of `G`, every non-zero entry can be assigned to its covering row, else to its
+    covering column; the sum becomes one pure tensor per covering row and per covering column. -/
+theorem cut_cover {K : Type*} [CommSemiring K] {A B C : Type*} [AddCommMonoid A] [AddCommMonoid B]
+    [AddCommMonoid C] [Module K A] [Module K B] [Module K C]
+    {ι κ : Type*} [Fintype ι] [Fintype κ] [DecidableEq ι] [DecidableEq κ]
+    (f : A →ₗ[K] B →ₗ[K] C) (U : ι → A) (V : κ → B) (G : Matrix ι κ K)
+    (Cu : Finset ι) (Cv : Finset κ) (hc : IsCover G Cu Cv) :
+    ∑ i, ∑ j, G i j • f (U i) (V j) =
+      ∑ i ∈ Cu, f (U i) (∑ j, G i j • V j) +
+        ∑ j ∈ Cv, f (∑ i ∈ Finset.univ.filter (· ∉ Cu), G i j • U i) (V j) :=
+  cut_cover_lem f U V G Cu Cv hc
+
+/-- **`cut_preserves`**: factorise `Γ = L · Γ' · R`, take any vertex cover `(Cu, Cv)` of the support of
+    `Γ'`, route every non-zero entry through its covering row or column.  The operator of the cut is
+    unchanged and is written with exactly `|Cu| + |Cv|` new vertices (pure tensors of virtual
+    nodes): the bond dimension created at the cut is the size of the cover. -/
+theorem cut_preserves {K : Type*} [CommSemiring K] {A B C : Type*} [AddCommMonoid A]
+    [AddCommMonoid B] [AddCommMonoid C] [Module K A] [Module K B] [Module K C]
+    {ι κ ι' κ' : Type*} [Fintype ι] [Fintype κ] [Fintype ι'] [Fintype κ']
+    [DecidableEq ι'] [DecidableEq κ']
+    (f : A →ₗ[K] B →ₗ[K] C) (U : ι → A) (V : κ → B)
+    (Γ : Matrix ι κ K) (L : Matrix ι ι' K) (Γ' : Matrix ι' κ' K) (R : Matrix κ' κ K)
+    (h : Γ = L * Γ' * R) (Cu : Finset ι') (Cv : Finset κ') (hc : IsCover Γ' Cu Cv) :
+    ∑ k : ↥Cu ⊕ ↥Cv,
+        f (routeA (fun u' => ∑ u, L u u' • U u) Γ' Cu Cv k)
+          (routeB (fun v' => ∑ v, R v' v • V v) Γ' Cu Cv k) =
+        ∑ u, ∑ v, Γ u v • f (U u) (V v) ∧
+      Fintype.card (↥Cu ⊕ ↥Cv) = Cu.card + Cv.card :=
+  ⟨cut_preserves_lem f U V Γ L Γ' R h Cu Cv hc, by simp⟩
+
+/-- Reading Γ off the terms with the *true* coefficients (sum over all terms with the same pair of
+    labels) is exact for every Hamiltonian on a two-node tree, repeated pairs included. -/
+theorem gamma_true_exact {K : Type*} [CommSemiring K] {A B C : Type*} [AddCommMonoid A]
+    [AddCommMonoid B] [AddCommMonoid C] [Module K A] [Module K B] [Module K C]
+    {α β : Type*} [DecidableEq α] [DecidableEq β]
+    (f : A →ₗ[K] B →ₗ[K] C) (X : α → A) (Y : β → B) (SA : Finset α) (SB : Finset β)
+    (terms : List (K × α × β)) (hS : ∀ t ∈ terms, t.2.1 ∈ SA ∧ t.2.2 ∈ SB) :
+    ∑ a ∈ SA, ∑ b ∈ SB, gammaTrue terms a b • f (X a) (Y b) = hamSum f X Y terms :=
+  gamma_true_exact_lem f X Y SA SB terms hS
+
+/-- **Side condition of the Γ reading** (`_setup_gamma_matrix` *assigns* `Gamma[u][v] = coefficient`,
+    so of several terms with the same pair of labels the last one wins): the stored coefficient is the
+    true one for every pair as soon as no pair (root label, child label) occurs twice, i.e. the terms
+    are pairwise distinct.  (The condition is also necessary unless the overwritten coefficients of a
+    repeated pair happen to sum to zero, see `gamma_read_loses_multiplicity`.) -/
+theorem gamma_read_exact {K : Type*} [CommSemiring K] {α β : Type*} [DecidableEq α] [DecidableEq β]
+    (terms : List (K × α × β)) (hnd : (terms.map (·.2)).Nodup) (a : α) (b : β) :
+    gammaRead terms a b = gammaTrue terms a b :=
+  gammaRead_eq_true_lem terms hnd a b
+
+/-- … and it is violated by the smallest repeated pair: the same term twice is read as once
+    (F-C01b at the level of Γ). -/
+theorem gamma_read_loses_multiplicity :
+    gammaRead [((1 : ℕ), (), ()), (1, (), ())] () () = 1 ∧
+    gammaTrue [((1 : ℕ), (), ()), (1, (), ())] () () = 2 := by
+  constructor <;> decide
+
+/-- End to end for one cut of a two-node tree, all steps abstract but composed: pairwise distinct
+    terms; Γ read as the code does; any factorisation `Γ = L · Γ' · R`; any vertex cover of the support
+    of `Γ'`; the `|Cu| + |Cv|` pure tensors routed through the cover sum to the Hamiltonian.
+    Partial: the pointer surgery realising the virtual nodes as hyperedges (`_create_combined_u_v_lists`,
+    `_reconnect_hyperedges`, `_copy_node`) is not modelled. -/
+theorem sge_two_node_exact_partial {K : Type*} [CommSemiring K] {A B C : Type*} [AddCommMonoid A]
+    [AddCommMonoid B] [AddCommMonoid C] [Module K A] [Module K B] [Module K C]
+    {α β : Type*} [DecidableEq α] [DecidableEq β]
+    {ι' κ' : Type*} [Fintype ι'] [Fintype κ'] [DecidableEq ι'] [DecidableEq κ']
+    (f : A →ₗ[K] B →ₗ[K] C) (X : α → A) (Y : β → B)
+    (terms : List (K × α × β)) (hnd : (terms.map (·.2)).Nodup) (SA : Finset α) (SB : Finset β)
+    (hS : ∀ t ∈ terms, t.2.1 ∈ SA ∧ t.2.2 ∈ SB)
+    (L : Matrix ↥SA ι' K) (Γ' : Matrix ι' κ' K) (R : Matrix κ' ↥SB K)
+    (hfac : (Matrix.of fun (a : ↥SA) (b : ↥SB) => gammaRead terms a.1 b.1) = L * Γ' * R)
+    (Cu : Finset ι') (Cv : Finset κ') (hc : IsCover Γ' Cu Cv) :
+    ∑ k : ↥Cu ⊕ ↥Cv,
+        f (routeA (fun u' => ∑ a : ↥SA, L a u' • X a.1) Γ' Cu Cv k)
+          (routeB (fun v' => ∑ b : ↥SB, R v' b • Y b.1) Γ' Cu Cv k) =
+      hamSum f X Y terms :=
+  sge_two_node_exact_partial_lem f X Y terms hnd SA SB hS L Γ' R hfac Cu Cv hc
+
 /-! ### Non-vacuity: concrete instances -/
 
 -- `exTree`, `exT1`, `exT2` (a branched tree with a dimension-1 node and two terms) are defined in `Lemmas.lean`.
@@ -103,6 +268,26 @@ example : coeffOf (hamDenote exTree [exT1, exT2, exT1])
 example : (singleTerm exTree exT1).WF ∧ (singleTerm exTree exT2).WF ∧
     SameShape (singleTerm exTree exT1) (singleTerm exTree exT2) :=
   ⟨singleAt_WF _ _ _ true _, singleAt_WF _ _ _ true _, singleAt_sameShape _ _ _ _ _ _ true _⟩
+
+-- `merge_equal_subtrees_preserves` / `combine_base_preserves` on a branched tree: the two terms agree below child
+-- number 1 of the root (nodes 1 and 3) and are merged there
+example : (baseDiagram exTree [exT1, ⟨7, "h", [(0, "C"), (3, "B")]⟩]).map (fun d => sdDenote (mergeAt 1 1 0 d)) =
+    some (hamDenote exTree [exT1, ⟨7, "h", [(0, "C"), (3, "B")]⟩]) := by decide +kernel
+
+-- … and where they do NOT agree (child number 0 carries I3 resp. C) the same surgery changes the operator
+example : (baseDiagram exTree [exT1, exT2]).map (fun d => sdDenote (mergeAt 0 1 0 d)) ≠
+    some (hamDenote exTree [exT1, exT2]) := by decide +kernel
+
+-- hypotheses of `cut_preserves`: Γ = all-ones 2×2 = L · Γ' · R through a single virtual node, covered by its row
+example : (Matrix.of fun (_ _ : Fin 2) => (1 : ℕ)) =
+    (Matrix.of fun (_ : Fin 2) (_ : Fin 1) => (1 : ℕ)) * (Matrix.of fun (_ _ : Fin 1) => (1 : ℕ)) *
+      (Matrix.of fun (_ : Fin 1) (_ : Fin 2) => (1 : ℕ)) := by
+  ext i j; simp [Matrix.mul_apply]
+example : IsCover (Matrix.of fun (_ _ : Fin 1) => (1 : ℕ)) {0} ∅ := by
+  intro i j _; left; simp; exact Subsingleton.elim i 0
+
+-- hypotheses of `sge_two_node_exact_partial`: distinct pairs
+example : ([((2 : ℕ), "A", "X"), (3, "A", "Y"), (5, "B", "X")].map (·.2)).Nodup := by decide
 
 -- the explicit enumeration really enumerates: 2 · 2 · 2 · 2 global choices for two terms on four nodes, two consistent
 example : ((baseDiagram exTree [exT1, exT2]).map fun d => ((choices d).length, (sdDenoteEnum d).length)) =
